@@ -130,7 +130,18 @@ func CmpUpto(a, b []byte) int {
 //
 // Since 0.1.20
 func StrCmpUpto(a string, b []byte) int {
-	return CmpUpto(*(*[]byte)(unsafe.Pointer(&a)), b)
+	// A string header has no capacity word: reading it as a slice header picks
+	// up whatever follows it in memory as the capacity. Append the capacity so
+	// that the header CmpUpto sees is a complete slice header.
+	h := strAsSlice{s: a, cap: len(a)}
+	return CmpUpto(*(*[]byte)(unsafe.Pointer(&h)), b)
+}
+
+// strAsSlice has the memory layout of a slice header: the two words of a string
+// header(pointer and length) followed by a capacity.
+type strAsSlice struct {
+	s   string
+	cap int
 }
 
 // Len returns the number of payload bits in a bitStr.
